@@ -12,9 +12,10 @@
      strict_all        the tree induction (the shape of CompWarmContInv.cont_all);
      D2_strict         k7s_shape a = false -> verdict 0, any two histories, no hypothesis on
                        the contents (names need not determine contents);
-     D1_strict         verdict 0, or inside the widened class 57 / 15 / 16;
-     k7c_shape, D2_strict_c, D1_strict_c   the same class and theorems in the vocabulary of
-                       Checkers/ChkHist.v (cold streams of the wrapped source, no `uncache`). *)
+     k7c_k7s           the checker's class k7c_shape (Checkers/ChkHist.v: cold streams of the
+                       wrapped source, no `uncache`) is k7s_shape; k7_k7c: it contains k7_shape;
+     D2_final          k7c_shape a = false -> chk_C14_pair .. = 0;
+     D1_final          chk_C14_pair .. = 0, or 57 inside k7c_shape. *)
 From RS Require Import Base.Prelude Base.Text Rope.RopeModel Codec.Vlq Codec.CodecSpec
   Stream.Types Stream.Leaves Stream.Concat Stream.Replace Stream.Combined Stream.Tree
   Api.ApiTree Sem.Attr Sem.HashEq Api.ApiHist Checkers.ChkTree Checkers.ChkHist Checkers.ChkCombined
@@ -399,51 +400,12 @@ Theorem D2_strict (a b : src) (opsa opsb : list hop) :
   chk_C14_pair a b (api_pair a opsa b opsb) = 0.
 Proof. intros He Hda Hdb Hca _ Hk. apply D2_strict_sec; assumption. Qed.
 
-(* D1 with the class drawn wide enough *)
-Theorem D1_strict (a b : src) (opsa opsb : list hop) :
-  src_eqb a b = true -> ColdCache.ids_distinct a -> ColdCache.ids_distinct b -> cls a -> cls b ->
-  let v := chk_C14_pair a b (api_pair a opsa b opsb) in
-  v = 0 \/ (k7s_shape a = true /\ (v = 57 \/ v = 15 \/ v = 16)).
-Proof.
-  intros He Hda Hdb Hca Hcb. cbn zeta. destruct (k7s_shape a) eqn:K.
-  - destruct (D1_partial a b opsa opsb He Hda Hdb Hca Hcb) as [H|[[_ H]|[_ [H|H]]]].
-    + left. exact H.
-    + right. split; [reflexivity|left; exact H].
-    + right. split; [reflexivity|right; left; exact H].
-    + right. split; [reflexivity|right; right; exact H].
-  - left. apply D2_strict; assumption.
-Qed.
-
 (* ------------------------------------------------------------------ *)
-(* the widened class in the checker's own vocabulary                    *)
+(* the class of the checker                                             *)
 (* ------------------------------------------------------------------ *)
-(* k7s_shape reads the attribution off the cache-free tree (refA: uncache).  The same class
-   written with what Checkers/ChkHist.v has at hand - the cold streams of the wrapped source
-   itself - so that it can replace `announces_unmapped` in `k7_shape` as it stands: *)
-Definition cold_events (inner : src) (c : bool) : list event := fst (fst (stream [] inner (mkOpts c false))).
-
-Definition attributes_nothing (inner : src) (c : bool) : bool :=
-  forallb (fun a => match a with None => true | Some _ => false end) (attr_of_stream (cold_events inner c) c).
-
-Fixpoint content_gap (l : list (text * option text)) : bool :=
-  match l with
-  | [] => false
-  | (_, None) :: r => existsb (fun p => match snd p with Some _ => true | None => false end) r || content_gap r
-  | _ :: r => content_gap r
-  end.
-
-Definition announces_history_dependent (inner : src) : bool :=
-  let anns := contents_of_events (cold_events inner true) in
-  (negb (is_nil anns) && (attributes_nothing inner true || attributes_nothing inner false)) || content_gap anns.
-
-Fixpoint k7c_shape (s : src) : bool :=
-  match s with
-  | SCached _ inner => announces_history_dependent inner || k7c_shape inner
-  | SConcat cs => existsb k7c_shape cs
-  | SReplace inner _ => k7c_shape inner
-  | _ => false
-  end.
-
+(* k7s_shape reads the attribution off the cache-free tree (refA: uncache).  The checker's
+   k7c_shape (Checkers/ChkHist.v) is the same class written with the cold streams of the
+   wrapped source itself. *)
 Lemma content_gap_same l : content_gap l = none_then_some l.
 Proof. induction l as [|[n [x|]] l IH]; cbn [content_gap none_then_some]; [reflexivity|exact IH|rewrite IH; reflexivity]. Qed.
 
@@ -452,7 +414,12 @@ Lemma history_dependent_same (inner : src) : ColdCache.ids_distinct inner ->
 Proof.
   intros Hd. unfold announces_history_dependent, announces_unattributed, announces_padded, attributes_nothing,
     cold_anns, cold_events, refA, ref_evs, all_none.
-  rewrite content_gap_same, !(fresh_stream_uncache inner _ Hd). reflexivity.
+  cbv zeta. rewrite content_gap_same, !(fresh_stream_uncache inner _ Hd).
+  destruct (anns (fst (fst (stream [] (uncache inner) (mkOpts true false))))) as [|p l] eqn:Ea.
+  - reflexivity.
+  - cbn [is_nil negb andb]. destruct (none_then_some (p :: l)); [rewrite orb_true_r; reflexivity|].
+    rewrite orb_false_r.
+    match goal with |- (if ?x then true else ?y) = _ => destruct x; reflexivity end.
 Qed.
 
 Theorem k7c_k7s : forall s, ColdCache.ids_distinct s -> k7c_shape s = k7s_shape s.
@@ -465,7 +432,7 @@ Proof.
     rewrite (history_dependent_same i Hd'), (IH Hd'). reflexivity.
 Qed.
 
-(* it is a widening of the K7 class: a stream without mapped chunk attributes nothing *)
+(* it is a widening of the former class k7_shape: a stream without mapped chunk attributes nothing *)
 Lemma unmapped_cover : forall evs srcs names, mapped_chunk_exists evs = false ->
   forallb (fun a : attr => match a with None => true | Some _ => false end)
           (attr_cover (rsegs_of_events evs srcs names)) = true.
@@ -483,10 +450,11 @@ Lemma unmapped_history_dependent (inner : src) :
   announces_unmapped inner = true -> announces_history_dependent inner = true.
 Proof.
   unfold announces_unmapped, announces_history_dependent, attributes_nothing, cold_events.
-  intros H. apply andb_true_iff in H. destruct H as [H1 H2]. apply negb_true_iff in H2.
+  intros H. apply andb_true_iff in H. destruct H as [H1 H2]. apply negb_true_iff in H2, H1.
+  cbv zeta. rewrite H1. destruct (content_gap _); [reflexivity|].
   unfold attr_of_stream. cbv beta iota zeta.
-  apply orb_true_iff. left. apply andb_true_iff. split; [exact H1|].
-  apply orb_true_iff. left. exact (unmapped_cover _ [] [] H2).
+  match goal with |- (if ?x then true else _) = true => replace x with true; [reflexivity|] end.
+  symmetry. exact (unmapped_cover _ [] [] H2).
 Qed.
 
 Theorem k7_k7c : forall s, k7_shape s = true -> k7c_shape s = true.
@@ -500,7 +468,11 @@ Proof.
     + rewrite (IH H). apply orb_true_r.
 Qed.
 
-Theorem D2_strict_c (a b : src) (opsa opsb : list hop) :
+(* ------------------------------------------------------------------ *)
+(* the final statements, about the checker as it is                     *)
+(* ------------------------------------------------------------------ *)
+(* D2: outside the class the checker accepts, any two histories, no hypothesis on the contents *)
+Theorem D2_final (a b : src) (opsa opsb : list hop) :
   src_eqb a b = true -> ColdCache.ids_distinct a -> ColdCache.ids_distinct b -> cls a -> cls b ->
   k7c_shape a = false ->
   chk_C14_pair a b (api_pair a opsa b opsb) = 0.
@@ -508,14 +480,27 @@ Proof.
   intros He Hda Hdb Hca Hcb Hk. apply D2_strict; try assumption. rewrite <- (k7c_k7s a Hda). exact Hk.
 Qed.
 
-Theorem D1_strict_c (a b : src) (opsa opsb : list hop) :
+(* D1: 0, or the known finding inside the class *)
+Theorem D1_final (a b : src) (opsa opsb : list hop) :
   src_eqb a b = true -> ColdCache.ids_distinct a -> ColdCache.ids_distinct b -> cls a -> cls b ->
   let v := chk_C14_pair a b (api_pair a opsa b opsb) in
-  v = 0 \/ (k7c_shape a = true /\ k7c_shape b = true /\ (v = 57 \/ v = 15 \/ v = 16)).
+  v = 0 \/ (k7c_shape a = true /\ v = 57).
 Proof.
-  intros He Hda Hdb Hca Hcb. cbn zeta.
-  destruct (D1_strict a b opsa opsb He Hda Hdb Hca Hcb) as [H|[K H]]; [left; exact H|right].
-  rewrite (k7c_k7s a Hda), (k7c_k7s b Hdb), <- (eq_k7s a b He Hda Hdb). split; [exact K|]. split; [exact K|exact H].
+  intros He Hda Hdb Hca Hcb. cbn zeta. destruct (k7c_shape a) eqn:K.
+  - destruct (D1_partial a b opsa opsb He Hda Hdb Hca Hcb) as [H|[[_ H]|[X _]]].
+    + left. exact H.
+    + right. split; [reflexivity|exact H].
+    + rewrite K in X. discriminate.
+  - left. apply D2_final; assumption.
+Qed.
+
+(* the spelling of "every cache id once" used by E4 (EqObsTree.ids_distinct) *)
+Corollary D1_final_E (a b : src) (opsa opsb : list hop) :
+  src_eqb a b = true -> EqObsTree.ids_distinct a -> EqObsTree.ids_distinct b -> cls a -> cls b ->
+  let v := chk_C14_pair a b (api_pair a opsa b opsb) in
+  v = 0 \/ (k7c_shape a = true /\ v = 57).
+Proof.
+  intros He Hda Hdb. apply D1_final; [exact He|apply ids_distinct_same; exact Hda|apply ids_distinct_same; exact Hdb].
 Qed.
 
 Print Assumptions strict_all.
@@ -523,8 +508,8 @@ Print Assumptions anns_history_independent.
 Print Assumptions eq_k7s.
 Print Assumptions contents_agree_tabs.
 Print Assumptions D2_strict.
-Print Assumptions D1_strict.
 Print Assumptions k7c_k7s.
 Print Assumptions k7_k7c.
-Print Assumptions D2_strict_c.
-Print Assumptions D1_strict_c.
+Print Assumptions D2_final.
+Print Assumptions D1_final.
+Print Assumptions D1_final_E.
